@@ -362,6 +362,37 @@ def _entry_point_contracts():
     return out
 
 
+class LabelsDecodeWithUnknownKey(Contract):
+    """the forgiving decode path with an unknown key next to a checked field: the unknown key (wherever it sorts) is skipped,
+    and the checked field is still accepted exactly when its value is in the documented domain -- on the REAL _set_fields body"""
+    target = T + 'Labels._set_fields'
+    extra_targets = (T + 'JSONField.from_json',)
+    props = ('C16',)
+    cost = 10
+
+    def inputs(self, g):
+        d = PDict()
+        d.e[g.pick(['aa_future_field', 'zz_future_field'], 'where the unknown key sorts')] = [True, g.text('u')]
+        d.e['vlan'] = [True, g.text('v')]
+        return [JsonText(d, True)], {}
+
+    def body(self, h, s):
+        return h.call(Labels.from_json, s)
+
+    @staticmethod
+    def _v(pre):
+        import json
+        s = pre.args[0]
+        d = s.value if isinstance(s, JsonText) else json.loads(s)
+        return fld(d, 'vlan')
+
+    ensures = {
+        'accept<=>in_domain': lambda pre, post: Iff(returned(post), value_in_domain('vlan', LabelsDecodeWithUnknownKey._v(pre))),
+        'stored==given': lambda pre, post: Implies(returned(post), And(is_obj(post.result), same(
+            fld(post.result, 'vlan'), LabelsDecodeWithUnknownKey._v(pre)))) if returned(post) else True,
+    }
+
+
 class LabelsNonString(Contract):
     """a value that is neither a string nor a list is never stored"""
     target = T + 'Labels._set_fields'
@@ -586,7 +617,7 @@ class SetBootScript(Contract):
     }
 
 
-CONTRACTS = [TablePinned] + make_label_contracts() + [LabelsNonString, LabelsUnknownField, CapacitiesSetFields] + \
+CONTRACTS = [TablePinned] + make_label_contracts() + [LabelsDecodeWithUnknownKey, LabelsNonString, LabelsUnknownField, CapacitiesSetFields] + \
     make_tag_contracts() + make_jsondata_contracts() + make_name_contracts() + [SetBootScript]
 for _c in CONTRACTS:
     globals()[_c.__name__] = _c
